@@ -100,6 +100,9 @@ def run(ctx):
     # ---- r4 body commitment ------------------------------------------------------------------
     body_commitment(ctx)
     proved_data_provenance(ctx)
+    # reviewed reference of the checker functions' decision structure (engine/census.py)
+    from rules import census_fns
+    census_fns.run(ctx, 'C02')
 
 
 def base_of(txt):
